@@ -47,6 +47,9 @@ def check(run):
         from . import C08 as _C08
         b8 = run.borrow("C08", only=r"\|NetworkFilter\.", why="a serialize / deserialize round trip is part of an engine's history")
         run.guard("C06.via.C08.1.state-coverage", cfg, lambda: _C08.rule_coverage(b8, F, cfg))
+        b8p = run.borrow("C08", why="a serialize / deserialize round trip is part of an engine's history")
+        run.guard("C06.via.C08.2.positional", cfg, lambda: _C08.rule_positional(b8p, F, cfg))
+        run.guard("C06.via.C08.3.legacy-bijection", cfg, lambda: _C08.rule_legacy(b8p, F, cfg))
 
 
 def engine_types(F):
